@@ -92,8 +92,12 @@ func (p *Prog) exceedsThreshold(c ssa.Value, b *ssa.BasicBlock, thr int64) (bool
 				continue
 			}
 		} else if stripAssert(subj) != base {
-			// the cardinality of another container (e.g. the receiver whose conversion is returned)
-			_ = base
+			// the cardinality of another container counts only for a result that is an unmodified
+			// conversion / copy of that container (the receiver whose conversion is returned); once the
+			// result has been written to, only its own cardinality says anything about it
+			if !unmodifiedCopyOf(base, stripAssert(subj)) {
+				continue
+			}
 		}
 		// lower bound established on each edge
 		lbTrue, lbFalse := int64(-1), int64(-1)
@@ -628,4 +632,84 @@ func (t *tlFunc) rawRunReachesSlot(r *ssa.Call, rcPtr types.Type) string {
 	}
 	walk(r)
 	return bad
+}
+
+// unmodifiedCopyOf: v is src itself, or the result of a call on src (clone, toX...) that is not written
+// through afterwards (no store into its fields, no further call with it as receiver or argument).
+func unmodifiedCopyOf(v, src ssa.Value) bool {
+	if v == src {
+		return true
+	}
+	call, ok := v.(*ssa.Call)
+	if !ok {
+		// not a copy we can see being made: keep the earlier, permissive behaviour for values that are
+		// not calls (phis of conversions, fields)
+		return true
+	}
+	derived := false
+	for _, a := range call.Call.Args {
+		if stripAssert(a) == src {
+			derived = true
+		}
+	}
+	if call.Call.IsInvoke() && stripAssert(call.Call.Value) == src {
+		derived = true
+	}
+	if !derived {
+		return true
+	}
+	// the copy under all its static types
+	alias := []ssa.Value{call}
+	for i := 0; i < len(alias); i++ {
+		if alias[i].Referrers() == nil {
+			continue
+		}
+		for _, r := range *alias[i].Referrers() {
+			switch x := r.(type) {
+			case *ssa.TypeAssert:
+				alias = append(alias, x)
+			case *ssa.ChangeInterface:
+				alias = append(alias, x)
+			case *ssa.MakeInterface:
+				alias = append(alias, x)
+			}
+		}
+	}
+	var refs []ssa.Instruction
+	for _, a := range alias {
+		if a.Referrers() != nil {
+			refs = append(refs, *a.Referrers()...)
+		}
+	}
+	isAlias := func(v ssa.Value) bool {
+		for _, a := range alias {
+			if a == v {
+				return true
+			}
+		}
+		return false
+	}
+	for _, r := range refs {
+		switch x := r.(type) {
+		case *ssa.FieldAddr:
+			if x.Referrers() != nil {
+				for _, rr := range *x.Referrers() {
+					if st, ok := rr.(*ssa.Store); ok && st.Addr == ssa.Value(x) {
+						return false
+					}
+				}
+			}
+		case *ssa.Call:
+			for _, a := range x.Call.Args {
+				if isAlias(a) {
+					// a read-only conversion of the copy (toArrayContainer on the other branch) is not a write
+					if g := x.Call.StaticCallee(); g != nil && strings.HasPrefix(g.Name(), "to") {
+						continue
+					}
+					return false
+				}
+			}
+		}
+	}
+	return true
 }
